@@ -409,9 +409,17 @@ def run_states(at, row_fn, tr, parallel_threshold=6):
             tr.row(case, mode, ok, detail, undecided)
 
 
-def compare_outcomes(I, mode, got, want, check_span=True, eq=None):
+def compare_outcomes(I, mode, got, want, check_span=True, eq=None, strict_ties=False):
     """-> (mode, ok, detail, undecided) row."""
-    if got.kind == "dontcare" or want.kind == "dontcare":
+    if want.kind == "dontcare":
+        return (mode, True, "dontcare", None)
+    if got.kind == "dontcare" and strict_ties:
+        # the code had to order two entries with identical times by their labels although the spec has a definite
+        # result for this case: the code produced (or sorted) duplicate times where none should exist
+        if want.kind in ("ok", "raise"):
+            return (mode, False, "code compares the labels of two entries with identical times (%s); spec %s" % (got.value, fmt_outcome(want)), None)
+        return (mode, True, "dontcare", None)
+    if got.kind == "dontcare":
         return (mode, True, "dontcare", None)
     if got.kind == "split" or want.kind == "split":
         return (mode, False, "", got.value if got.kind == "split" else want.value)
